@@ -15,6 +15,7 @@ import (
 	"math/rand"
 	"os"
 	"strings"
+	"time"
 
 	g "github.com/zenon-network/go-zenon/chain/genesis/mock"
 	"github.com/zenon-network/go-zenon/chain/nom"
@@ -100,6 +101,10 @@ var c16LastMutatedBlock *nom.AccountBlock
 
 var c16Kinds = []string{"bad-signature", "wrong-producer", "non-pillar-producer", "wrong-changes-hash", "stale-hash", "block-mutated", "block-missing", "block-extra", "content-reordered", "timestamp-not-increasing", "data-not-empty", "block-extra-on-empty"}
 
+// c16NodeSchedule: who produces at time t according to the node under test, on the branch it is on (set per case).
+var c16NodeSchedule func(t time.Time) *wallet.KeyPair
+var c16WrongProducerFromOwnBranch int
+
 // c16Corrupt corrupts element i of a batch (which was cloned) in the given way. Returns false if the kind is not applicable.
 func c16Corrupt(batch []*nom.DetailedMomentum, i int, kind string, r *rand.Rand) bool {
 	d := batch[i]
@@ -119,9 +124,19 @@ func c16Corrupt(batch []*nom.DetailedMomentum, i int, kind string, r *rand.Rand)
 		m.Signature[r.Intn(len(m.Signature))] ^= 1 << uint(r.Intn(8))
 	case "wrong-producer":
 		var other *wallet.KeyPair
-		for _, k := range []*wallet.KeyPair{g.Pillar1, g.Pillar2, g.Pillar3} {
-			if k.Address != producer.Address {
+		// preferably the pillar that the schedule of the node's OWN branch has for that slot (a supplier that built
+		// its momentum with the schedule of the branch the node is on), when the two branches disagree about the slot
+		if c16NodeSchedule != nil {
+			if k := c16NodeSchedule(*m.Timestamp); k != nil && k.Address != producer.Address {
 				other = k
+				c16WrongProducerFromOwnBranch++
+			}
+		}
+		if other == nil {
+			for _, k := range []*wallet.KeyPair{g.Pillar1, g.Pillar2, g.Pillar3} {
+				if k.Address != producer.Address {
+					other = k
+				}
 			}
 		}
 		c16Resign(m, other)
@@ -232,12 +247,30 @@ func c16Run(c *fw.C, caseID string) {
 	A := simnet.Open("A", base+"/A", simnet.MockGenesis(), g.PillarKeys)
 	defer A.Stop()
 	wA := simnet.NewWorkload(rand.New(rand.NewSource(r.Int63())), A)
+	// chains are not gap-free: pillars miss slots, now and then for longer than a tick (which moves the election proof
+	// momentum of later ticks into the forked part of the chain)
 	grow := func(n *simnet.Node, w *simnet.Workload, k int) bool {
 		for i := 0; i < k; i++ {
 			w.Step(4)
-			if _, err := n.Produce(0); err != nil {
+			skip := 0
+			switch x := r.Intn(40); {
+			case x < 5:
+				skip = 1 + r.Intn(3)
+			case x < 7:
+				skip = 20 + r.Intn(50)
+			}
+			var err error
+			for try := 0; try < 6; try++ {
+				if _, err = n.Produce(skip + try); err == nil {
+					break
+				}
+			}
+			if err != nil {
 				c.Violation("producer-cannot-produce", err.Error())
 				return false
+			}
+			if skip > 0 {
+				c.Count("slots_skipped_by_producers", skip)
 			}
 		}
 		return true
@@ -274,6 +307,18 @@ func c16Run(c *fw.C, caseID string) {
 		return
 	}
 
+	c16NodeSchedule = func(t time.Time) *wallet.KeyPair {
+		a, err := N.Cons.GetMomentumProducer(t)
+		if err != nil || a == nil {
+			return nil
+		}
+		return c16PillarKey(*a)
+	}
+	defer func() {
+		c16NodeSchedule = nil
+		c.Count("wrong_producers_taken_from_the_schedule_of_the_nodes_own_branch", c16WrongProducerFromOwnBranch)
+		c16WrongProducerFromOwnBranch = 0
+	}()
 	nDeliveries := 14
 	for di := 0; di < nDeliveries; di++ {
 		L := c16ChainHashes(N)
